@@ -10,7 +10,7 @@
      tools : ToolsNode with state pre-handler toolsNodePreHandle;
              ToolReturnDirectly empty  : --data--> chat
              ToolReturnDirectly non-empty: one branch {chat, direct_return} whose condition reads
-             state.ReturnDirectlyToolCallID (set by the pre-handler of the very task whose output
+             state.ReturnDirectly (set by the pre-handler of the very task whose output
              is being routed — the engine model's branch sees only the output value, so the
              tools task hands the flag on with its output), and direct_return --data--> END
      compiled with WithMaxRunSteps(MaxStep) in AnyPredecessor (Pregel) mode.
@@ -20,7 +20,9 @@
      RModel chunks m   the chat model's output: the chunks it emitted in this mode (what the
                        branch condition reads) and their concatenation (what every other consumer
                        gets)
-     RTools rs direct  the tools node's output []*schema.Message (tool messages) + the flag above
+     RTools o rs direct  the tools node's output: what it emitted in this mode (one value / the merged
+                       sparse frames: what direct_return filters), its position-wise concatenation
+                       (what every other consumer gets) + the flag above
      RFinal m          direct_return's output
    The graph state St carries react's state struct, the rest of the model's script (the scripted
    model is a node body with memory) and the observation log of the run. *)
@@ -30,7 +32,7 @@ Local Open Scope string_scope.
 Inductive rval : Type :=
 | RIn (ms : list msg)
 | RModel (chunks : list chunk) (m : msg)
-| RTools (results : list tmsg) (direct : bool)
+| RTools (o : tout) (results : list tmsg) (direct : bool)
 | RFinal (m : msg).
 
 Definition kChat : key := 2%N.
@@ -47,13 +49,14 @@ Definition cToolsBase : N := 16%N.    (* tools node error e  |->  16 + e *)
 Record rstate : Type := mkRS {
   rs_script : list step;              (* what the scripted model will still reply *)
   rs_messages : list msg;             (* state.Messages *)
-  rs_rdid : string;                   (* state.ReturnDirectlyToolCallID *)
+  rs_rd : option nat;                 (* state.ReturnDirectly / ReturnDirectlyToolCallIndex *)
   rs_inputs : list (list msg);        (* observation: model inputs so far *)
   rs_rounds : list (list call);       (* observation: tool rounds so far *)
   rs_emits : list msg }.              (* observation: messages handed to the future so far *)
 
 Section ReactGraph.
   Variable tn : list call -> res (list tmsg).
+  Variable tns : list call -> res (list string * list emitted).
   Variable rd : string -> bool.
   Variable rd_nonempty : bool.
   Variable modifier : list msg -> list msg.
@@ -72,7 +75,7 @@ Section ReactGraph.
        v_norm := fun v => v;
        v_size := fun v => match v with
                           | RModel chunks _ => b2n (checker chunks)
-                          | RTools _ direct => b2n direct
+                          | RTools _ _ direct => b2n direct
                           | _ => 0%N
                           end |}.
 
@@ -94,7 +97,7 @@ Section ReactGraph.
   (* the node bodies, state handlers included *)
   Definition exec_chat (input : list msg) (s : rstate) : res rval * rstate :=
     let msgs := (rs_messages s ++ input)%list in
-    let s1 := mkRS (rs_script s) msgs (rs_rdid s) (rs_inputs s ++ [modifier msgs]) (rs_rounds s) (rs_emits s) in
+    let s1 := mkRS (rs_script s) msgs (rs_rd s) (rs_inputs s ++ [modifier msgs]) (rs_rounds s) (rs_emits s) in
     match rs_script s with
     | [] => (Err cModel, s1)
     | SFail :: _ => (Err cModel, s1)
@@ -103,25 +106,36 @@ Section ReactGraph.
         | None => (Err cConcat, s1)
         | Some m =>
             (Ok (RModel (emitted_chunks md content calls chunks) m),
-             mkRS script' msgs (rs_rdid s) (rs_inputs s1) (rs_rounds s) (rs_emits s ++ [m]))
+             mkRS script' msgs (rs_rd s) (rs_inputs s1) (rs_rounds s) (rs_emits s ++ [m]))
         end
     end.
 
+  Definition is_some {A} (o : option A) : bool := match o with Some _ => true | None => false end.
+
   Definition exec_tools (m : msg) (s : rstate) : res rval * rstate :=
-    let rdid := if rd_nonempty then rd_call_id rd (m_calls m) else "" in
-    let s1 := mkRS (rs_script s) (rs_messages s ++ [m]) rdid (rs_inputs s) (rs_rounds s ++ [m_calls m]) (rs_emits s) in
-    match tn (m_calls m) with
-    | Ok results =>
-        (Ok (RTools results (negb (String.eqb rdid ""))),
-         mkRS (rs_script s) (rs_messages s1) rdid (rs_inputs s) (rs_rounds s1)
-              (rs_emits s ++ emitted_results visible (m_calls m) results))
+    let rdi := if rd_nonempty then rd_call_index rd (m_calls m) else None in
+    let s1 := mkRS (rs_script s) (rs_messages s ++ [m]) rdi (rs_inputs s) (rs_rounds s ++ [m_calls m]) (rs_emits s) in
+    match tools_out tn tns md (m_calls m) with
+    | Ok o =>
+        match tout_results o with
+        | Ok results =>
+            (Ok (RTools o results (is_some rdi)),
+             mkRS (rs_script s) (rs_messages s1) rdi (rs_inputs s) (rs_rounds s1)
+                  (rs_emits s ++ emitted_results visible (m_calls m) results))
+        | Err e => (Err (cToolsBase + e), s1)
+        | Panic => (Panic, s1)
+        end
     | Err e => (Err (cToolsBase + e), s1)
     | Panic => (Panic, s1)
     end.
 
-  Definition exec_direct (results : list tmsg) (s : rstate) : res rval * rstate :=
-    match find_tcid (rs_rdid s) results with
-    | Some r => (Ok (RFinal (tool_msg r)), s)
+  Definition exec_direct (o : tout) (s : rstate) : res rval * rstate :=
+    match rs_rd s with
+    | Some i =>
+        match tout_direct i o with
+        | Some r => (Ok (RFinal (tool_msg r)), s)
+        | None => (Err cNoDirect, s)
+        end
     | None => (Err cNoDirect, s)
     end.
 
@@ -131,18 +145,18 @@ Section ReactGraph.
         if N.eqb k kChat then
           match v with
           | RIn ms => exec_chat ms s
-          | RTools results _ => exec_chat (map tool_msg results) s
+          | RTools _ results _ => exec_chat (map tool_msg results) s
           | _ => (Err cType, s)
           end
         else if N.eqb k kTools then
           match v with RModel _ m => exec_tools m s | _ => (Err cType, s) end
         else if N.eqb k kDirect then
-          match v with RTools results _ => exec_direct results s | _ => (Err cType, s) end
+          match v with RTools o _ _ => exec_direct o s | _ => (Err cType, s) end
         else (Err cType, s)
     | _ => (Err cType, s)
     end.
 
-  Definition init_rstate (script : list step) : rstate := mkRS script [] "" [] [] [].
+  Definition init_rstate (script : list step) : rstate := mkRS script [] None [] [] [].
 
   (* reading the engine's outcome back as a ReAct outcome; None = an outcome the ReAct graph
      cannot produce (theorem: never) *)
